@@ -9,6 +9,7 @@ import (
 	"go/token"
 	"go/types"
 	"math/big"
+	"regexp"
 	"strconv"
 	"strings"
 )
@@ -1366,8 +1367,15 @@ func (f *FuncCtx) convert(x Val, t types.Type) Val {
 		if a, isA := at.Underlying().(*types.Array); isA {
 			if n, isB := byteArray(a); isB {
 				srt := f.S.SortOf(at)
-				arr := f.fresh("arrconv", srt)
-				f.emit(fmt.Sprintf("(assert (forall ((i!c Int)) (! (=> (and (<= 0 i!c) (< i!c %d)) (= (at_%s %s i!c) (select (s_arr %s) i!c))) :pattern ((at_%s %s i!c)))))", n, srt, arr, x.T, srt, arr))
+				// a declared conversion function; its element-wise meaning is stated per operand (a global axiom
+				// quantifying over slices defeats the solvers' model-based instantiation), and not at all when the
+				// operand mentions a variable bound by an enclosing quantifier of a contract expression
+				cf := "arrconv." + sanitize(ss) + ".to." + sanitize(srt)
+				f.S.declare(cf, fmt.Sprintf("(declare-fun %s (%s) %s)", cf, ss, srt))
+				arr := fmt.Sprintf("(%s %s)", cf, x.T)
+				if !reBoundVar.MatchString(x.T) {
+					f.emit(fmt.Sprintf("(assert (forall ((i!c Int)) (! (=> (and (<= 0 i!c) (< i!c %d)) (= (at_%s %s i!c) (select (s_arr %s) i!c))) :pattern ((at_%s %s i!c)))))", n, srt, arr, x.T, srt, arr))
+				}
 				if ptr {
 					return Val{T: fmt.Sprintf("(some %s)", arr), Typ: t}
 				}
@@ -1380,6 +1388,8 @@ func (f *FuncCtx) convert(x Val, t types.Type) Val {
 	f.S.declare(fn, fmt.Sprintf("(declare-fun %s (%s) %s)", fn, ss, ts))
 	return Val{T: fmt.Sprintf("(%s %s)", fn, x.T), Typ: t}
 }
+
+var reBoundVar = regexp.MustCompile(`!q\d+\b|![ec]\d*\b`)
 
 func (v Val) retype(t types.Type) Val { v.Typ = t; return v }
 
